@@ -2,6 +2,7 @@ package props
 
 import (
 	"fmt"
+	"runtime"
 
 	"gopkg.in/typ.v4/lists"
 	"verifharness/internal/core"
@@ -402,7 +403,30 @@ func runC16(c *core.Ctx) {
 	if c.Index%10 == 4 {
 		type bigT [40]int64
 		ok := true
-		switch (c.Index / 10) % 5 {
+		switch (c.Index / 10) % 7 {
+		case 5:
+			errs := map[int]error{}
+			ok = qsTyped(c, "error(with nils)", r.Range(50, 3000), 60, func(i int) error {
+				if i%3 == 0 {
+					return nil // a nil interface value is a value like any other
+				}
+				if errs[i] == nil {
+					errs[i] = fmt.Errorf("e%d", i)
+				}
+				return errs[i]
+			})
+		case 6:
+			ok = qsTyped(c, "any(mixed, with nils)", r.Range(50, 3000), 60, func(i int) any {
+				switch i % 4 {
+				case 0:
+					return nil
+				case 1:
+					return i
+				case 2:
+					return fmt.Sprint(i)
+				}
+				return [2]int{i, -i}
+			})
 		case 0:
 			ok = qsTyped(c, "[40]int64", r.Range(50, 3000), 60, func(i int) bigT { return bigT{int64(i), 1: int64(-i), 39: int64(i) * 7} })
 		case 1:
@@ -467,7 +491,14 @@ func qsTyped[T comparable](c *core.Ctx, tname string, nops, flipDen int, mk func
 		return false
 	}
 	fill := true
+	gcAt := -1
+	if nops <= 3000 {
+		gcAt = r.Intn(nops) // one garbage collection in the middle: what the containers hold must survive it
+	}
 	for i := 0; i < nops; i++ {
+		if i == gcAt {
+			runtime.GC()
+		}
 		if r.Chance(1, flipDen) {
 			fill = !fill
 		}
